@@ -39,7 +39,9 @@ def binop(I, op, a, b):
                 raise Unsupported("float floor division")
             d = to_int(b)
             I.require_defined(d != 0, "ZeroDivisionError", "integer division by zero")
-            return VInt(py_floordiv(to_int(a), d))
+            if isinstance(const_of(VInt(d)), int):
+                return VInt(py_floordiv(to_int(a), d))
+            return VInt(I.ver.floordiv_term(I, to_int(a), d))
         if isinstance(op, ast.Mod):
             if real:
                 raise Unsupported("float modulo")
@@ -48,6 +50,9 @@ def binop(I, op, a, b):
             return VInt(py_mod(to_int(a), d))
         if isinstance(op, ast.Pow):
             cb = const_of(b)
+            ca = const_of(a)
+            if isinstance(ca, int) and isinstance(cb, int) and not isinstance(ca, bool) and 0 <= cb <= 64:
+                return VInt(z3.IntVal(ca ** cb))
             if isinstance(cb, int) and not isinstance(cb, bool) and 0 <= cb <= 4:
                 if real:
                     r = z3.RealVal(1)
@@ -129,6 +134,9 @@ def norm_index(I, seq, k):
     idx = to_int(k)
     c = const_of(k)
     if isinstance(c, int) and c >= 0:
+        return idx
+    if I.spec and not isinstance(c, int):
+        # spec expressions index with non-negative terms by convention (keeps quantifier triggers simple)
         return idx
     return z3.If(idx < 0, idx + seq.n, idx)
 
@@ -1037,7 +1045,8 @@ def sort_seq(I, v, key):
                                       z3.And(0 <= sg(i), sg(i) < n, sgi(sg(i)) == i,
                                              z3.Select(res.arr, i) == z3.Select(v.arr, sg(i))))))
     p.assume(z3.ForAll([j], z3.Implies(z3.And(0 <= j, j < n),
-                                      z3.And(0 <= sgi(j), sgi(j) < n, sg(sgi(j)) == j))))
+                                      z3.And(0 <= sgi(j), sgi(j) < n, sg(sgi(j)) == j,
+                                             z3.Select(res.arr, sgi(j)) == z3.Select(v.arr, j)))))
 
     def keyof(e):
         x = v.et.wrap(e)
@@ -1609,10 +1618,17 @@ def comprehension(I, n, env):
     p.assume(z3.ForAll([j], z3.Implies(z3.And(0 <= j, j < res.n),
                                       z3.And(0 <= sel(j), sel(j) < base.n, sub(cond, sel(j)),
                                              rank(sel(j)) == j,
-                                             z3.Select(res.arr, j) == sub(elt_e, sel(j))))))
-    p.assume(z3.ForAll([j, j2], z3.Implies(z3.And(0 <= j, j < j2, j2 < res.n), sel(j) < sel(j2))))
+                                             z3.Select(res.arr, j) == sub(elt_e, sel(j)))),
+                       patterns=[z3.Select(res.arr, j), sel(j)]))
+    p.assume(z3.ForAll([j, j2], z3.Implies(z3.And(0 <= j, j < j2, j2 < res.n), sel(j) < sel(j2)),
+                       patterns=[z3.MultiPattern(sel(j), sel(j2))]))
+    hit_pats = [rank(i)]
+    if base.arr is not None:
+        hit_pats.append(z3.Select(base.arr, i))
     p.assume(z3.ForAll([i], z3.Implies(z3.And(0 <= i, i < base.n, cond),
-                                      z3.And(0 <= rank(i), rank(i) < res.n, sel(rank(i)) == i))))
+                                      z3.And(0 <= rank(i), rank(i) < res.n, sel(rank(i)) == i,
+                                             z3.Select(res.arr, rank(i)) == elt_e)),
+                       patterns=hit_pats))
     res.filt = (sel, rank, base)
     return res
 
